@@ -119,6 +119,20 @@ x86("_mm_slli_epi64")(_shift(64, True))
 x86("_mm_srli_epi64")(_shift(64, False))
 
 
+def _sra(w):
+    def f(it, key, a, ce):
+        k = imm(ce)
+        if k < 0 or k >= w:
+            k = w - 1 if True else w
+            return join((x[-1],) * w for x in lanes(a[0], w)) if imm(ce) >= w else join(bv.ashr(x, k) for x in lanes(a[0], w))
+        return join(bv.ashr(x, k) for x in lanes(a[0], w))
+    return f
+
+
+x86("_mm_srai_epi16")(_sra(16))
+x86("_mm_srai_epi32", "_mm256_srai_epi32")(_sra(32))
+
+
 @x86("_mm_slli_si128", "_mm_bslli_si128")
 def _bslli(it, key, a, ce):
     k = imm(ce) & 0xff
